@@ -98,3 +98,14 @@ PROPS["C03"] = {
         "thorough": [J("c03", c, defs=REAL4K, deadline=1500) for c in range(3, 17)] + [J("c03", 2, defs=REAL4K)],
     },
 }
+
+PROPS["C09"] = {
+    "level": "model_checking",
+    "technique": "explicit-state BFS to a fixpoint over NMT commands, API mode changes and one probe frame per service, against a reference CiA 301 slave state machine with a per-state gating table",
+    "text": "Node with one of every service (SDO server, asynchronous RPDO, event and synchronous TPDO, SYNC consumer, heartbeat producer and consumer, EMCY, LSS). Alphabet: NMT command specifiers {1,2,128,129,130,0,3,127,255} x target {own id, 0, other}; CONmtSetMode, CONodeStart, CONmtReset(node/com), CONodeStop; probe frames for SDO, RPDO, SYNC, heartbeat of a monitored and an unmonitored node, LSS switch/inquire, a foreign identifier and the node's own transmit identifiers; COEmcySet/Clr, COTPdoTrigPdo, tick. After every step: node mode, the sequence of mode-change callbacks, the reset-request callback, the number and content of boot-up frames, which service reacted (frames per identifier, mapped object, PDO callback), and how often the frame was handed to the application callback are compared with the reference. The reachable state set is closed (fixpoint) for node ids 1, 5 and 127, started and unstarted.",
+    "note": "heartbeat timing is not compared here (C10), only content and at most one per tick; in STOPPED the delivery of unclaimed frames to the application is unconstrained as the statement says; after CONodeStop only safety is judged; NMT frames carry DLC 2",
+    "jobs": {
+        "quick": [J("c09", c, depth=80, deadline=120) for c in range(4)],
+        "thorough": [J("c09", c, depth=80, deadline=600) for c in range(4)],
+    },
+}
